@@ -61,6 +61,10 @@ def definition(d):
         attrs = tuple(K.App(a) for a in sy.get('attrs', []))
         sents.append(K.SymbolDecl(K.Symbol(sy['name'], tuple(K.SortVar(v) for v in sy.get('params', []))),
                                   tuple(ksort(s) for s in sy.get('inputs', [])), ksort(sy['sort']), attrs))
+    for k in range(d.get('ordinal_offset', 0)):
+        # axioms that are neither rewrite nor equational rules (here: marked as simplifications) still take an ordinal
+        so0 = K.SortApp(d['sorts'][0])
+        sents.append(K.Axiom((), K.Top(so0) if k % 2 == 0 else K.Not(so0, K.Top(so0)), (K.App('simplification'),)))
     for r in d['rules']:
         so = ksort(r['sort'])
         svars = (K.SortVar(r['sort'][1:]),) if r['sort'].startswith('$') else ()      # axiom{R} \\rewrites{R}(...)
@@ -79,8 +83,13 @@ def do_ktrace(req):
     out['rewrites_def'] = B.to_json(kl.kore_rewrites.definition)
     # conversion experiments: rule vs substituted rule
     for i, r in enumerate(req['definition']['rules']):
-        rule = sem.get_axiom(i + req['definition'].get('ordinal_offset', 0))
-        scope = sem._cached_axiom_scopes[rule.ordinal]
+        try:
+            rule = sem.get_axiom(i + req['definition'].get('ordinal_offset', 0))
+            scope = sem._cached_axiom_scopes[rule.ordinal]
+        except EXC as e:       # the rule with that ordinal is not there: a refused conversion (clause conv-refused)
+            out['convs'].append({'ordinal': i, 'rule': {'t': 'ev', 'i': 0}, 'varmap': [], 'subst': [], 'conv_substituted': {'t': 'ev', 'i': 0}, 'has': False,
+                                 'error': type(e).__name__})
+            continue
         cv = {'ordinal': rule.ordinal, 'rule': B.to_json(rule.pattern), 'varmap': [[k, v.name] for k, v in scope._metavars.items()],
               'subst': [], 'conv_substituted': B.to_json(rule.pattern), 'has': False, 'error': ''}
         sg = (req.get('rule_substs') or {}).get(str(i))
@@ -166,7 +175,9 @@ def main():
         if not line:
             continue
         req = json.loads(line)
-        r = do_ktrace(req)
+        import contextlib, io
+        with contextlib.redirect_stdout(io.StringIO()):      # whatever the toolkit prints must not end up in the result stream
+            r = do_ktrace(req)
         sys.stdout.write(json.dumps(r, separators=(',', ':')) + '\n')
     sys.stdout.flush()
 
